@@ -6,6 +6,7 @@ import (
 	"fmt"
 	"io"
 	"log/slog"
+	"math"
 	"runtime/debug"
 	"strings"
 	"sync"
@@ -77,6 +78,12 @@ func (g Gateway) Lock(ctx context.Context, in *hydrapb.LockRequest) (*hydrapb.Lo
 	if in.GetTTL() <= 1000 {
 		// set the TTL to 1000 milliseconds to prevent too short TTLs
 		in.TTL = 1000
+	}
+	// Cap the TTL so that converting it to a time.Duration (nanoseconds) cannot overflow:
+	// an overflowed (negative) duration makes the TTL watchdog fire immediately and the
+	// lock would be handed to the next waiter while this client still believes it holds it.
+	if maxTTL := int64(math.MaxInt64 / int64(time.Millisecond)); in.GetTTL() > maxTTL {
+		in.TTL = maxTTL
 	}
 
 	// what is the lock key is an empty string
